@@ -79,6 +79,19 @@ def handle : Handler := fun j => do
             | some v => pairToJson (inv.apply p v f)).toArray)]
     pure (Json.mkObj [("dump", dumpTable m.map), ("noReinstall", dumpTable m.noReinstall),
                       ("applied", Json.arr (fwd.map pairToJson).toArray), ("inverse", invJ)])
+  | "srvfile" =>
+    -- {server: [[path, content]..], reqs: [[path, dest]..], pinned}
+    let pair := fun (f : Json) => do
+      match (← f.getArr?).toList with
+      | [a, b] => pure (Str.ofString (← a.getStr?), Str.ofString (← b.getStr?))
+      | _ => throw "pair expected"
+    let srv ← (← jarr j "server").mapM pair
+    let reqs ← (← jarr j "reqs").mapM pair
+    let ans := getFiles (← jbool j "pinned") srv {} reqs
+    pure (Json.mkObj [("answers", Json.arr (ans.map fun a => match a with
+      | .content t => Json.mkObj [("content", ofStr t)]
+      | .notFound => Json.mkObj [("error", "notfound")]
+      | .sameFile => Json.mkObj [("error", "samefile")]).toArray)])
   | "manseq" =>
     -- a sequence of operations on one live Manifest object
     let mut m : Manifest := { product := ← jstrOpt j "product", version := ← jstrOpt j "version", deps := [] }
